@@ -1,4 +1,5 @@
 import GeosModel.Proofs.Index.STRBuild
+import GeosModel.Proofs.Index.STRCapOne
 import GeosModel.Proofs.EnvLemmas
 import GeosModel.Model.Index.Rep
 import GeosModel.Proofs.Index.Quad
@@ -15,8 +16,9 @@ Hypotheses are exactly:
   model of `geom::Envelope` in `env_law` below — and the two sorts return permutations (true of
   `std::sort` whatever it does on ties);
 * node capacity ≥ 2 (`Tree.WF.cap`).  For capacity 1 the model's `build` does not reach a single root
-  (the C++ loop would not terminate); capacity 0 is meaningless.  The quantifier of the property is
-  2..32.
+  (`build_capacity_one_makes_no_progress`: every level has as many nodes as the one below, for any fuel — the C++ loop
+  does not terminate; found on the real code by the C12 sequences and repaired: `GEOSSTRtree_create_r` refuses a capacity
+  below 2 since 6546757fa); capacity 0 is meaningless.  The quantifier of the property is 2..32.
 -/
 namespace GeosModel.STR
 variable {β ι : Type}
@@ -64,6 +66,12 @@ theorem insert_spec (c : Cfg β ι) (t : Tree β ι) (b : β) (i : ι) (hw : t.W
       · rfl
     · have hn' : c.isNull b = false := by simpa using hn
       simp [Tree.live, hb, List.filter_append, hn']
+
+/-- **the hypothesis `2 ≤ cap` is necessary**: with node capacity 1 the packing loop of `build()` keeps the number of
+parentless nodes unchanged at every level, whatever the number of iterations — two or more items never get a root -/
+theorem build_capacity_one_makes_no_progress (c : Cfg β ι) (ok : CfgOK c) (fuel : Nat) (es : List (Entry β ι)) :
+    (buildLoop c.ops 1 c.sortX c.sortY fuel (es.map Node.leaf)).length = es.length := by
+  rw [buildLoop_one_length c.ops c.sortX c.sortY ok.sortX ok.sortY]; simp
 
 /-- the root produced by `build()` holds every pending entry exactly once and covers them -/
 theorem buildRoot_spec (c : Cfg β ι) (ok : CfgOK c) (cap : Nat) (hc : 2 ≤ cap) (es : List (Entry β ι))
